@@ -1572,6 +1572,15 @@ impl Zeroconf {
             // Send out probing queries.
             self.probing_handler();
 
+            // Follow run-time changes of the interval: zero disables the check,
+            // a positive value (re)starts it.
+            if self.ip_check_interval == 0 {
+                next_ip_check = 0;
+            } else if next_ip_check == 0 {
+                next_ip_check = now + self.ip_check_interval;
+                self.add_timer(next_ip_check);
+            }
+
             // check IP changes if next_ip_check is reached.
             if now >= next_ip_check && next_ip_check > 0 {
                 next_ip_check = now + self.ip_check_interval;
